@@ -59,6 +59,9 @@ def main():
         elif not old.get("reevaluated") and old.get("caught_by") is not None:
             meta["caught_on_arrival"] = sorted(old["caught_by"])
         meta["reevaluated"] = True
+        for k in ("superseded", "demo_on_repaired_tree_with_seed_exit"):
+            if k in old:
+                meta[k] = old[k]
     demo = os.path.join(wt, "OUT", "demo", "run.sh")
     if not a.skip_confirm:
         rc, o = sh("ninja -C _build 2>&1 | tail -1", cwd=wt)
